@@ -318,3 +318,87 @@ def roughen(seed, sig, level, dtype=None):
     elif dtype == 'float32':
         out = out.astype(np.float32).astype(float)
     return out
+
+
+# ----------------------------------------------------------------------------------------------
+# (WP19) the resolved tap count re-expressed, and signals on which a slightly different band-pass shows
+
+def taps_length_ways(fs, taps, f_lo):
+    """The resolved (integer, odd) tap count of a filter expressed in seconds / in cycles of f_lo and turned back into
+    samples, in binary64: documented value first (the integer itself), then taps -> seconds -> samples in two ways and
+    taps -> cycles -> samples in two ways.  Mathematically all are `taps`."""
+    fs, t, f_lo = float(fs), float(taps), float(f_lo)
+    return [t, fs * (t / fs), (t / fs) / (1.0 / fs), fs * (t * f_lo / fs) / f_lo, fs * ((t / fs) * f_lo) / f_lo]
+
+
+def taps_roundtrip_disagrees(fs, taps, f_lo):
+    """True when one of taps_length_ways resolves (ceil, made odd) to another tap count than `taps`."""
+    return any(odd_taps(w) != int(taps) for w in taps_length_ways(fs, taps, f_lo))
+
+
+def _roundtrip_ways(fs, taps, f_lo):
+    """Indices (1..4) of the computations of taps_length_ways that resolve to another tap count than `taps`."""
+    return [i for i, w in enumerate(taps_length_ways(fs, taps, f_lo)) if i and odd_taps(w) != int(taps)]
+
+
+def _pick_by_way(r, entries):
+    """entries: (dict, ways) pairs with non-empty ways.  The disagreeing computation is drawn first (each of the
+    computations that occurs with equal weight), then an entry on which it disagrees, weight 1 / L."""
+    if not entries:
+        return None
+    way = r.choice(sorted(set(w for _, ws in entries for w in ws)))
+    return dict(_pick_short(r, [e for e, ws in entries if way in ws]), roundtrip=way)
+
+
+def exact_cycles_roundtrip_pick(r, period, nsamp, n=None):
+    """One entry of exact_cycle_table(period) (as exact_cycles_pick) whose documented tap count
+    odd_taps(fs * n / f_lo) is not reproduced by every computation of taps_length_ways (entry key `roundtrip` = index
+    of the computation drawn).  None when the table has no such entry that fits nsamp samples."""
+    tab = []
+    for e in exact_cycle_table(period):
+        if (n is None or e['n'] == n) and e['L'] + 2 < 0.9 * nsamp:
+            ws = _roundtrip_ways(e['fs'], odd_taps(cycle_length_ways(e['fs'], e['n'], e['f_lo'])[0]), e['f_lo'])
+            if ws:
+                tab.append((e, ws))
+    return _pick_by_way(r, tab)
+
+
+def seconds_roundtrip_pick(r, fs, f_lo, nsamp, lo_periods=0.4, hi_periods=4.0):
+    """n_seconds (as exact_seconds_pick: L / fs for an integer L, its roundings and neighbours, fs * n_seconds within
+    1e-12 of L) whose documented tap count odd_taps(fs * n_seconds) is not reproduced by every computation of
+    taps_length_ways.  dict(n_seconds, L, rel, disc_taps, disc_ceil, roundtrip) or None."""
+    from fractions import Fraction
+    P = fs / f_lo
+    out = []
+    for L in range(max(3, int(math.ceil(lo_periods * P))), int(min(hi_periods * P, 0.9 * nsamp - 2)) + 1):
+        q = L / fs
+        for ns in sorted(set((q, round(q, 6), round(q, 4), math.nextafter(q, math.inf), math.nextafter(q, 0.0)))):
+            if ns <= 0:
+                continue
+            true = Fraction(fs) * Fraction(ns)
+            if abs(true - L) > Fraction(L, 10 ** 12):
+                continue
+            ways = seconds_length_ways(fs, ns, f_lo)
+            ws = _roundtrip_ways(fs, odd_taps(ways[0]), f_lo)
+            if ws:
+                rel, dt, dc = _classify(ways, true, L)
+                out.append(({'n_seconds': ns, 'L': L, 'rel': rel, 'disc_taps': dt, 'disc_ceil': dc}, ws))
+    return _pick_by_way(r, out)
+
+
+def fragile(seed, n, period, amp, quant=None):
+    """n samples of broadband noise (white + detrended random walk, 0.7 standard deviations each) with a weak rhythm of
+    `period` samples (amplitude `amp`, slowly waxing and waning) underneath: the band-passed copy of such a signal has
+    many half-waves of small amplitude, so that a band-pass with a slightly different kernel (a few taps more or less)
+    moves, adds or removes zero crossings and with them reported raw extrema.  quant: round to multiples of 1 / quant
+    (ties and plateaus in the raw samples)."""
+    nr = np.random.default_rng(seed)
+    t = np.arange(n)
+    x = np.cumsum(nr.standard_normal(n))
+    x = x - np.linspace(x[0], x[-1], n)
+    env = 0.5 + 0.5 * np.sin(2 * math.pi * t / (period * (5.3 + 4 * nr.random())) + 2 * math.pi * nr.random())
+    sig = amp * env * np.sin(2 * math.pi * t / period + 2 * math.pi * nr.random())
+    sig = sig + 0.7 * x / (np.std(x) + 1e-12) + 0.7 * nr.standard_normal(n)
+    if quant:
+        sig = np.round(sig * quant) / quant
+    return np.asarray(sig, dtype=float)
